@@ -16,6 +16,13 @@ COMMON_NOTE = (
 
 # id -> (level category, level text, technique, design ref, extra note)
 CLAIMED = {
+    "C05": (
+        "proof",
+        "The real ScaleVariations methods, sector_mapping & co. and the scale-variation part of compute_local run on formal x-space operators (one-node grid: the code is linear in them), symbolic beta0/beta1, weights and raw coefficients with eko's concrete flavour projectors; the produced tensors are inserted into the apply_pdf contraction with the truncated running coupling and truncated DGLAP evolution and every coefficient of a0^k tR^i tF^j that the RGEs require to cancel (muR through a0^pto for pto<=3, muF through a0^min(pto,2)) is shown to be the zero polynomial; closed tables (build_orders, ren_coeffs, every sector of sector_mapping); switches: off-terms are exactly zero, the rest identical; intrinsic kernels carry no lnF.",
+        "contract-based deductive verification: symbolic execution on formal operators + exact polynomial normaliser (coefficient extraction)",
+        "DESIGN 4 C05",
+        "label-definition lemma (stored convolved kernels are the ordered LO products) assumed; eko projectors/anomalous-dimension basis trusted; kernels with an LO entry carry no gluon weight and only active-flavour weights.",
+    ),
     "C07": (
         "proof",
         "Lattice-wide lemmas on the REAL Combiner.collect output: the formal sum (view) of the kernels of F_total equals view(F_light) plus the views of the massive flavours in FFNS/FFN0 and view(F_light) in ZM-VFNS; a ZM-treated flavour is the restriction of the massless light part to that quark's couplings (NC: positivity-charge stub, CC: CKM restricted to the flavour's block); FONLL 'full' = 'massless' + 'massive'; the six NCPositivityCharge runs sum to the unrestricted one. Entry-wise identities of weight vectors per (coefficient class, ctor data, order window), weights symbolic.",
